@@ -19,6 +19,7 @@ type C03Case struct {
 	Kind   string  `json:"kind"`
 	FIFO   bool    `json:"fifo"`
 	CapArg int     `json:"caparg"` // >0 capacity; 0 => And(0); -1 => And() ; < -1 => And(negative)
+	Policy bool    `json:"policy,omitempty"` // an accept-everything push policy is installed (capacity must be enforced all the same)
 	Ops    []C03Op `json:"ops"`
 }
 
@@ -89,8 +90,14 @@ func runC03(c C03Case) (st Stats, err error) {
 		if c.FIFO {
 			s.SetFIFO(true)
 		}
+		if c.Policy {
+			s.SetPushPolicy(func(...any) error { return nil })
+		}
 	}); p != "" {
 		return st, violf("setup/panic", "setup panicked: %s", p)
+	}
+	if c.Policy {
+		st.Class("with-push-policy")
 	}
 	if v := checkCapInvariants(s, m, "init"); v != nil {
 		return st, v
@@ -302,7 +309,11 @@ func genC03(t *rapid.T, tier Tier) C03Case {
 		c.CapArg = rapid.SampledFrom([]int{-1, 0, -2, -5}).Draw(t, "nocapform")
 	} else {
 		c.CapArg = rapid.IntRange(1, maxK).Draw(t, "cap")
+		if rapid.IntRange(0, 9).Draw(t, "bigcap?") == 0 {
+			c.CapArg = rapid.IntRange(15, 70).Draw(t, "bigcap") // past the allocator's growth steps
+		}
 	}
+	c.Policy = rapid.IntRange(0, 3).Draw(t, "policy?") == 0
 	ops := []string{"push", "push", "fill", "fill", "insert", "insert", "pop", "pop", "remove", "reset", "transfer", "marshal", "replace", "reverse"}
 	n := rapid.IntRange(1, maxOps).Draw(t, "nops")
 	k := c.CapArg
@@ -339,7 +350,7 @@ func init() {
 		Gen: genC03,
 		Run: runC03,
 		Floors: map[string]float64{"partial-fit-batch": 0.05, "insert-at-full": 0.05, "transfer-at-boundary": 0.03,
-			"growth-at-boundary-after-shrink": 0.2, "marshal-at-full": 0.02, "no-capacity": 0.03},
+			"growth-at-boundary-after-shrink": 0.2, "marshal-at-full": 0.02, "no-capacity": 0.03, "with-push-policy": 0.1},
 		Assumptions: []string{"Transfer-into is only required to stay within capacity and to append a prefix of the source (its all-or-nothing result is C15)"},
 	})
 }
